@@ -108,7 +108,8 @@ def rule_limits(ctx):
                     function='_range2parts', line=r2p.lineno)
     sh_ = p.func('formulas/ranges.py', '_shape')
     rr.instances += 1
-    t = ' '.join(norm_src(n) for n in own_nodes(sh_) if isinstance(n, ast.Assign))
+    t = ' '.join(norm_src(n) for n in own_nodes(sh_)
+                 if isinstance(n, (ast.Assign, ast.Return)))
     if 'maxrow if r1 == 0 and r2 == maxrow' in t and \
             'maxcol if n1 == 0 and n2 == maxcol' in t:
         rr.ok('_shape gives whole rows/columns the full grid extent',
@@ -198,6 +199,44 @@ def rule_groups(ctx):
     return rr
 
 
+def _tail_inlined(ctx, f):
+    """If f ends in `return helper(args)` where helper is a straight-line
+    private function of the module, a view of f with the helper's body in
+    place of that call (parameters replaced by the argument expressions): the
+    fast paths may share a builder without changing what they compute."""
+    import copy
+    from ..model import FuncInfo
+    rets = [n for n in f.node.body if isinstance(n, ast.Return)]
+    if len(rets) != 1 or not isinstance(rets[0].value, ast.Call):
+        return f
+    call = rets[0].value
+    r = ctx.cg.resolve_name_expr(f, call.func) if isinstance(
+        call.func, (ast.Name, ast.Attribute)) else None
+    if not (r and r[0] == 'func'):
+        return f
+    h = r[1]
+    if h.module is not f.module or h.vararg or h.kwarg or call.keywords or \
+            len(call.args) != len(h.params) or any(
+            isinstance(s, (ast.If, ast.For, ast.While, ast.Try, ast.With))
+            for s in h.node.body):
+        return f
+    sub = dict(zip(h.params, call.args))
+
+    class S(ast.NodeTransformer):
+        def visit_Name(self, n):
+            if isinstance(n.ctx, ast.Load) and n.id in sub:
+                return copy.deepcopy(sub[n.id])
+            return n
+
+    body = [s for s in f.node.body if s is not rets[0]]
+    hbody = [S().visit(copy.deepcopy(s)) for s in h.node.body]
+    node = copy.copy(f.node)
+    node.body = body + hbody
+    ast.fix_missing_locations(node)
+    g = FuncInfo(f.module, node, f.qualname, f.cls, f.parent)
+    return g
+
+
 def _returned_dict(f):
     rets = [n.value for n in own_nodes(f) if isinstance(n, ast.Return)
             and isinstance(n.value, ast.Dict)]
@@ -243,14 +282,14 @@ def rule_fast(ctx):
     if len(names) < 3:
         raise AnalysisError('fast_range2parts: list of fast paths not found')
     for nm in names:
-        f = p.func(OPERAND, nm)
+        f = _tail_inlined(ctx, p.func(OPERAND, nm))
         rr.instances += 1
         d = _returned_dict(f)
         problems = []
         params = set(f.params)
         # ref upper-cased
         refv = d.get('ref')
-        refname = refv.id if isinstance(refv, ast.Name) else 'ref'
+        refname = norm_src(refv) if refv is not None else 'ref'
         if isinstance(refv, ast.Name):
             refv = _local_value(f, refv.id)
         if refv is None or not (isinstance(refv, ast.Call) and isinstance(
